@@ -5,7 +5,7 @@
    byte sequences (lexcmp on utf8_encode). *)
 From Coq Require Import ZArith List Bool Sorted.
 From EV Require Import Res Arr UniqueSpec Unique UniqueOrder UniqueUtf8 UniqueSort UniqueStore UniqueIsin
-                       UniqueScan UniqueMain UniqueCor UniqueSafe UniqueContainer.
+                       UniqueScan UniqueMain UniqueCor UniqueSafe UniqueContainer UniqueCoerce.
 Import ListNotations.
 Open Scope Z_scope.
 
@@ -246,3 +246,39 @@ Theorem plain_dispatch_definitional : forall (A:Type) (cmp:A -> A -> comparison)
   apply_isin_plain cmp data tests = spec_isin cmp data tests.
 Proof. intros. split; reflexivity. Qed.
 Print Assumptions plain_dispatch_definitional.
+
+(* ---- integer columns: exact membership at every magnitude (repair of F-C14c) ---- *)
+(* full: the repaired integer path of apply_isin (None entries and integers outside the column's dtype
+   [lo, hi] dropped, the rest compared in the column's own dtype) = the specification, for every column
+   the dtype can hold - no bound on the magnitude (beyond 2^53, at the int64 / uint64 extremes) *)
+Theorem isin_int_exact : forall lo hi (data:list Z) (tests:list (option Z)),
+  Forall (fun x => lo <= x <= hi) data ->
+  apply_isin_int lo hi data tests = spec_isin Z.compare data tests.
+Proof. exact UniqueCoerce.isin_int_exact. Qed.
+Print Assumptions isin_int_exact.
+
+(* full: an implicit coercion of column and test values (int -> float64, int64 <-> uint64, narrowing) is
+   unobservable when it is injective on the (column value, test value) pairs ... *)
+Theorem isin_coercion_injective : forall (c:Z -> Z) (data:list Z) (tests:list (option Z)),
+  (forall x t, In x data -> In (Some t) tests -> c x = c t -> x = t) ->
+  isin_coerced c data tests = spec_isin Z.compare data tests.
+Proof. exact UniqueCoerce.isin_coercion_injective. Qed.
+Print Assumptions isin_coercion_injective.
+
+(* full: ... and observable as soon as it merges a row's value with a test value while the row's value is
+   not a member: that row is a false positive (what the generators' collision pairs plant) *)
+Theorem isin_coercion_collision : forall (c:Z -> Z) (data:list Z) (tests:list (option Z)) i t,
+  0 <= i < len data -> In (Some t) tests -> c (nthZ data i) = c t -> ~ In (Some (nthZ data i)) tests ->
+  nthd false (isin_coerced c data tests) i = true /\ nthd false (spec_isin Z.compare data tests) i = false.
+Proof. exact UniqueCoerce.isin_coercion_collision. Qed.
+Print Assumptions isin_coercion_collision.
+
+(* refuted (R): comparing in binary64 (a None entry replaced by NaN types the test values float64) is not
+   exact beyond 2^53; witness column [2^53+1, 5], tests [2^53, None] *)
+Theorem isin_float64_coercion_refuted : exists data tests,
+  isin_coerced f64_round data tests <> spec_isin Z.compare data tests.
+Proof.
+  exists [2 ^ 53 + 1; 5], [Some (2 ^ 53); None]. destruct UniqueCoerce.coerced_f64_refuted as [H1 [H2 _]].
+  rewrite H1, H2. discriminate.
+Qed.
+Print Assumptions isin_float64_coercion_refuted.
